@@ -1098,9 +1098,18 @@ impl SyncShared {
         // which will cause the 2000 headers to be held in memory for a long time
         let parent_hash = Byte32::from_slice(header.data().raw().parent_hash().as_slice())
             .expect("checked slice length");
-        let parent_header_index = self
-            .get_header_index_view(&parent_hash, store_first)
-            .expect("parent should be verified");
+        let Some(parent_header_index) = self.get_header_index_view(&parent_hash, store_first)
+        else {
+            // The parent is stored, which is why the header could be checked, but its
+            // verification has not recorded a total difficulty yet (a block submitted locally
+            // that is still being verified): the header cannot be indexed now.
+            debug!(
+                "insert_valid_header: parent {} of {} is not indexed yet",
+                parent_hash,
+                header.hash()
+            );
+            return;
+        };
         let mut header_view = HeaderIndexView::new(
             header.hash(),
             header.number(),
